@@ -170,6 +170,16 @@ SPECS["C05"] = {
     "assumptions": ["Kani's panic / arithmetic overflow / bounds checks as the oracle", "JSON: serde MapAccess, serde_json::from_value (Ok(empty list) | Err) and Engine::decode (Ok | Err) are contracts; error values are opaque"],
 }
 
+SPECS["C27"] = {
+    "parts": [{"engine": "m", "module": "c27"}],
+    "functions": ["dicom_ul::association::read_pdu_from_wire", "dicom_ul::pdu::reader::read_pdu (header handling; A-RELEASE-RQ/RP, A-ABORT and P-DATA-TF arms)"],
+    "bounds": "streams rq+rp, p1+rq, p2+p0+rp (thorough: also rq+p3, ab+rq+rp, p1+p1) where pN is a P-DATA-TF with one PDV of N symbolic payload bytes, symbolic context id and control header; "
+              "the transport delivers the stream in 1..3 reads (thorough 1..4) with every combination of read sizes; maximum PDU length 16378, strict mode",
+    "outside": "the asynchronous receiver, A-ASSOCIATE PDUs and other long PDUs in the stream, more reads than the bound, reads of zero bytes before the end of the stream (a closed connection), errors of the transport (C34)",
+    "assumptions": ["contracts over byte lists: BufReader::{new, fill_buf, consume} (fill_buf returns the next read of the transport, consume discards it), BytesMut::{extend_from_slice, advance, deref}, Cursor::{new, position, set_position}, "
+                    "bytes::Buf::{remaining, has_remaining, copy_to_bytes, get_u8/u16/u32, advance} (reading past the end is a panic, as in the bytes crate)", "snafu context/fail: error values are opaque"],
+}
+
 SPECS["C28"] = {
     "parts": [{"engine": "m", "module": "c28"}, {"engine": "m", "module": "c28rq"}],
     "functions": ["dicom_ul::association::server::ServerAssociationOptions::process_a_association_rq::{closure#1} (per-context negotiation)", "ServerAssociationOptions::choose_ts (+ closure)",
